@@ -19,6 +19,9 @@ func (m *M) mapFind(mo *MapObj, k Value) int {
 			panic(goPanic{msg: "runtime error: hash of unhashable type " + i.t.String()})
 		}
 	}
+	if mo.lazyGen != nil {
+		m.lazyLookup(mo, k)
+	}
 	for i, x := range mo.keys {
 		b := m.valEq(x, k)
 		if m.branch(b) {
@@ -26,6 +29,71 @@ func (m *M) mapFind(mo *MapObj, k Value) int {
 		}
 	}
 	return -1
+}
+
+func isConcKey(v Value) bool {
+	switch x := v.(type) {
+	case Int:
+		return x.conc
+	case Str:
+		return x.conc
+	case Bool:
+		return x.conc
+	case Iface:
+		return x.u == nil && x.t != nil && isConcKey(x.v)
+	}
+	return false
+}
+
+// lazyLookup materialises what a lookup of k can observe: only the universe key that equals k (if any).
+// For a symbolic k the equality with each undecided universe key is a (solver-decided) fork.
+func (m *M) lazyLookup(mo *MapObj, k Value) {
+	if k == nil {
+		m.materialiseAll(mo)
+		return
+	}
+	for i, u := range mo.universe {
+		if mo.asked[i] {
+			continue
+		}
+		eq := m.valEqSafe(u, k)
+		if eq.conc && !eq.v {
+			continue
+		}
+		if m.branch(eq) {
+			m.materialise(mo, i)
+			return
+		}
+	}
+}
+
+func (m *M) valEqSafe(a, b Value) Bool {
+	ia, oka := a.(Iface)
+	ib, okb := b.(Iface)
+	if oka && okb && (ia.t == nil || ib.t == nil || !types.Identical(ia.t, ib.t)) {
+		return cBool(ia.t == nil && ib.t == nil)
+	}
+	return m.valEq(a, b)
+}
+
+func (m *M) materialiseAll(mo *MapObj) {
+	if mo.lazyGen == nil {
+		return
+	}
+	for i := range mo.universe {
+		if !mo.asked[i] {
+			m.materialise(mo, i)
+		}
+	}
+}
+
+func (m *M) materialise(mo *MapObj, i int) {
+	mo.asked[i] = true
+	r := m.callImpl(mo.lazyGen.fn, []Value{mo.universe[i]}, mo.lazyGen.fv).(Tuple)
+	if m.branch(r[1].(Bool)) {
+		mo.keys = append(mo.keys, copyVal(m.force(mo.universe[i])))
+		mo.vals = append(mo.vals, copyVal(r[0]))
+	}
 }
 
 type Task struct {
@@ -213,6 +281,7 @@ func (f *frame) extra(in ssa.Instruction) bool {
 			it := &MapIter{}
 			if c.obj != nil {
 				mo := c.obj.v.(*MapObj)
+				m.materialiseAll(mo)
 				it.keys = append([]Value{}, mo.keys...)
 				it.vals = append([]Value{}, mo.vals...)
 				if m.P.mapOrders && len(it.keys) >= 2 {
